@@ -1127,6 +1127,12 @@ class Engine:
         if name in abst:
             self.assumed.append(name)
             return abst[name](self, st, args, kwargs, e)
+        ctors = self.c.get("constructors", {})
+        if name in ctors:
+            # ClassName(...) through the CONTRACT of its constructor (modular: the constructor body is verified on its own)
+            obj = self.fresh_of_kind(f"obj:{name}", f"new.{name}", st)
+            self.call_contract(ctors[name], obj, args, kwargs, st, e)
+            return obj
         if name == "len":
             a = args[0]
             if isinstance(a, VSeq):
